@@ -946,7 +946,8 @@ impl<'a> Gen<'a> {
         let fs = self.fields(0, tr, n, false);
         r.shape = Shape::Struct(fs);
         let n_names = if tr == Trait::Attributes { self.rng.weighted(&[0, 6, 3, 1]) } else { self.rng.weighted(&[2, 6, 3, 1]) };
-        let pool = ["attr_a", "attr_b", "cfgx", "my_crate", "ns::attr_c", "::glob_attr"];
+        // (`doc` is an attribute name like any other: a receiver may read `#[doc(..)]`)
+        let pool = ["attr_a", "attr_b", "cfgx", "my_crate", "ns::attr_c", "::glob_attr", "doc"];
         let mut names: Vec<&str> = pool.to_vec();
         self.rng.shuffle(&mut names);
         r.attr_names = names.into_iter().take(n_names).map(|s| s.to_string()).collect();
